@@ -34,8 +34,8 @@ UNIT = dict(
     ('R11', 'enum ChannelQueueKind', dict(drop=['Debug'], add=['Structural'])),
     # R4: Option::or_else with a closure capturing &mut self
     ('R4', 'ChannelQueue::runnable_waiter', dict(
-      pat='find_runnable_waiter(&mut self.send_waiters)\n            .or_else(|| find_runnable_waiter(&mut self.receive_waiters))',
-      rep='match find_runnable_waiter(&mut self.send_waiters) { Some(verif_w) => Some(verif_w), None => find_runnable_waiter(&mut self.receive_waiters) }',
-      count=1)),
+      pat=r'find_runnable_waiter\(&mut self\.(\w+)\)\s*\.or_else\(\|\| find_runnable_waiter\(&mut self\.(\w+)\)\)',
+      rep=r'match find_runnable_waiter(&mut self.\1) { Some(verif_w) => Some(verif_w), None => find_runnable_waiter(&mut self.\2) }',
+      regex=True, count=1)),
   ],
 )
